@@ -1400,3 +1400,32 @@ Qed.
 (* an instruction-less program never reaches the templates *)
 Lemma prepare_empty_refused cfg s : translate s = Ok [] -> prepare cfg s = Err ($"empty").
 Proof. intros E. unfold prepare. rewrite E. reflexivity. Qed.
+
+(* ------------------------------------------------------------------ gen -out FILE *)
+(* the file after a history of invocations holds exactly the output for the last accepted script
+   (or is what it was before, when no script was accepted) *)
+Lemma gen_out_step_spec cfg name file src :
+  (forall out, gen cfg name src = Ok out -> gen_out_step cfg (TType name) file src = (0%N, Some out)) /\
+  ((forall out, gen cfg name src <> Ok out) -> gen_out_step cfg (TType name) file src = (1%N, file)).
+Proof.
+  unfold gen_out_step. split.
+  - intros out E. now rewrite E.
+  - intros H. destruct (gen cfg name src) as [o| | |]; try reflexivity. exfalso. apply (H o). reflexivity.
+Qed.
+
+Fixpoint last_accepted (cfg : alloc_cfg) (name : list N) (srcs : list (list N)) (acc : option (list N)) : option (list N) :=
+  match srcs with
+  | [] => acc
+  | s :: r => last_accepted cfg name r (match gen cfg name s with Ok out => Some out | _ => acc end)
+  end.
+
+Theorem gen_out_history_last cfg name : forall srcs file,
+  snd (gen_out_history cfg (TType name) file srcs) = last_accepted cfg name srcs file /\
+  fst (gen_out_history cfg (TType name) file srcs) = map (fun s => match gen cfg name s with Ok _ => 0%N | _ => 1%N end) srcs.
+Proof.
+  induction srcs as [|s r IH]; intros file; [split; reflexivity|].
+  cbn [gen_out_history last_accepted map]. unfold gen_out_step.
+  destruct (gen cfg name s) as [out| | |];
+    match goal with |- context [gen_out_history cfg (TType name) ?f r] =>
+      destruct (IH f) as [A B]; destruct (gen_out_history cfg (TType name) f r) as [es fin]; cbn [fst snd] in *; now rewrite A, B end.
+Qed.
